@@ -49,7 +49,7 @@ def scenario_strategy(opts):
         prog = draw(G.programs(opts))
         ents = G.entries(prog)
         root, style = draw(st.sampled_from(ents[-2:] if len(ents) > 1 else ents))
-        start = draw(st.sampled_from(["fresh_missing", "fresh_created", "old_version", "old_version", "same_version", "other_view"]))
+        start = draw(st.sampled_from(["fresh_missing", "fresh_created", "old_version", "old_version", "same_version", "other_view", "fresh_nested"]))
         old = prog
         for _ in range(draw(st.integers(1, 2))):
             old = M.apply_edit(old, draw(G.edits(old, root, kinds=["setvar", "bump", "setlit", "bump"], opts=opts)))
@@ -79,6 +79,12 @@ class FixedPid(object):
 
     def getpid(self):
         return self._pid
+
+    def kill(self, pid, sig):
+        # a liveness probe of the re-used pid succeeds: the pid of the dead process now belongs to a live one (this one)
+        if pid == self._pid and sig == 0:
+            return None
+        return self._inner.kill(pid, sig)
 
     def __getattr__(self, name):
         return getattr(self._inner, name)
@@ -184,6 +190,8 @@ def check_scenario(sc, ev=None, scratch=None, only_k=None):
         what = f"start={sc['start']} cache={cache} style={style}"
         # ---- initial store
         vdata = "dataB" if sc["start"] == "other_view" else "data"   # the victim's data directory
+        if sc["start"] == "fresh_nested":
+            vdata = "internal/views/data"   # nothing exists yet and the data directory lies inside the internal directory
         if sc["start"] in ("old_version", "same_version", "other_view"):
             p0 = sc["old"] if sc["start"] in ("old_version", "other_view") else prog
             write_prog(root_old, p0)
